@@ -79,9 +79,10 @@ func (sa SessionBasedAuthorizer) evaluate() ([]string, tq.AuthorStatus) {
 	// overload the body.Args fields to include injected arg concepts in them.  Doing so artifically injects avps into the
 	// requested client args and allows them to behave in evaluation the same as if they came from the client.  We do this for
 	// args that will never present in a client request, but for things we'd like to filter on.  A use cases is filtering for scope
-	sa.body.Args = append(sa.body.Args, tq.Arg(sa.user.GetLocalizedScope()))
-
-	args := sa.body.Args.Args()
+	// the injected arg goes in after the client args were de-duplicated and as the last element: matchers keep the
+	// last value seen per attribute, so nothing the client sends (a duplicate of the injected arg included) can
+	// displace or override it
+	args := append(sa.body.Args.Args(), sa.user.GetLocalizedScope())
 	responseArgs := make(tq.Args, 0, len(args))
 	authorStatus := tq.AuthorStatusPassAdd
 
